@@ -239,8 +239,47 @@ def panic_sites(fn):
                     break
         elif t["t"] == "assert":
             m = t.get("msg")
+            if m == "Overflow" and _sum_of_two_lengths(fn, blk, t):
+                continue    # len(a) + len(b): each is at most isize::MAX, the sum cannot overflow usize
             out.append(("assert", m if isinstance(m, str) else str(m), bool(t.get("exp")), b))
     return out
+
+
+_LEN_RX = re.compile(r"(slice::<impl \[T\]>|vec::Vec::<T, A>|vec::Vec::<T>|str::<impl str>|string::String|bytes::Bytes|bytes::BytesMut|collections::VecDeque::<T, A>)::len$")
+
+
+def _sum_of_two_lengths(fn, blk, t):
+    """The overflow assertion of `a + b` where a and b are each the length of an allocated object (`len()` of a slice,
+    Vec, str, String, Bytes) or a constant below 2^62: objects are at most isize::MAX bytes long (a language
+    guarantee), so the usize sum cannot wrap and the assertion cannot fire."""
+    c = t.get("cond") or {}
+    if c.get("k") not in ("move", "copy") or not c["pl"]["p"]:
+        return False
+    src = [st for st in blk["st"] if st["s"] == "assign" and st["pl"] == {"l": c["pl"]["l"], "p": []} and st["rv"]["rv"] == "binop" and st["rv"].get("op") == "AddWithOverflow"]
+    if len(src) != 1:
+        return False
+    defs = fn.defs()
+
+    def is_len(op, depth=0):
+        if op.get("k") == "const":
+            v = (op.get("val") or {}).get("int")
+            return isinstance(v, int) and 0 <= v < 2 ** 62
+        if op.get("k") not in ("move", "copy") or op["pl"]["p"] or depth > 4:
+            return False
+        ds = defs.get(op["pl"]["l"], [])
+        if len(ds) != 1:
+            return False
+        bb, kind, node = ds[0]
+        if kind == "call":
+            return bool(_LEN_RX.search(node.get("callee") or "")) and not node["dest"]["p"]
+        if kind == "assign" and not node["pl"]["p"]:
+            rv = node["rv"]
+            if rv["rv"] == "use":
+                return is_len(rv["op"], depth + 1)
+            if rv["rv"] == "unop" and rv.get("op") == "PtrMetadata":
+                return True
+        return False
+    return is_len(src[0]["rv"]["a"]) and is_len(src[0]["rv"]["b"])
 
 
 def load_panic_table(name="c10_panics.txt"):
